@@ -81,14 +81,14 @@ type mapEntry struct {
 }
 
 type MapV struct {
-	id      int
-	entries []*mapEntry
-	keyT    types.Type
-	elemT   types.Type
-	epoch   int
-	guard   *Obj // mutex object guarding this map (lock-discipline monitor)
+	id        int
+	entries   []*mapEntry
+	keyT      types.Type
+	elemT     types.Type
+	epoch     int
+	guard     *Obj // mutex object guarding this map (lock-discipline monitor)
 	guardPath []int
-	owner   string
+	owner     string
 }
 
 type ChanV struct {
